@@ -43,6 +43,9 @@ PROPS: dict[str, dict] = {
     },
     "C01": {
         "modules": ["iteration"],
+        # "independent of any merging, elision or reordering the library performed while the tree was being built":
+        # the construction-time merging contracts (Slice.then, Sort.then, simplify, _finish_apply) are part of this check
+        "depends": ["C05"],
         "extra": [_c01_extra],
         "assumptions": ["leaf payloads are re-iterable and hold the leaf's rows; iteration-engine leaves always carry a payload",
                         "law library spec/laws.py (status per law in coverage.law_library)",
@@ -92,7 +95,12 @@ PROPS: dict[str, dict] = {
         "explanation": "Processor._process_recursive proved path by path (77 paths, recursion by contract, payload heap as ghost state): same rows/columns/engine, result evaluable by its engine alone, hooks only on self-contained non-trivial sources, payloads never replaced, transfers never gain payloads",
     },
     "C06": {
-        "modules": ["c20"],
+        "modules": ["processor"],
+        # "... so the short-cuts keyed on them never change a result": the consumers named by the property
+        # (execute's short-circuits, Join elision in _begin_apply/_finish_apply, Processor chain pruning)
+        "depends": ["C01", "C07"],
+        "only_clauses": {"iteration._engine:Engine.execute": ["yields-exactly-the-rows-of-direct-evaluation"],
+                         "_processor:Processor._process_recursive": ["same-columns-engine-and-rows"]},
         "assumptions": ["leaf relations declare truthful columns and row bounds (hypothesis of the property)",
                         "law library spec/laws.py (status per law in coverage.law_library)"],
         "explanation": "truthfulness of columns/min_rows/max_rows as attribute contracts proved per operation class; flags imply content",
@@ -230,7 +238,8 @@ PROPS["C01"].update(
 )
 PROPS["C10"].update(
     level_text="MarkerRelation.attach_payload (write-once, frame: only this marker's cell, rejected attach changes nothing) and BaseRelation.attach_payload (always TypeError) are proved; an AST scan proves the only payload write in the library is that statement; "
-               "iteration.Engine.execute is proved to return a cached payload without re-evaluation, never to replace a payload, to touch payload cells of this tree only and to leave an executed materialization with a payload.",
+               "iteration.Engine.execute is proved to return a cached payload without re-evaluation, never to replace a payload, to touch payload cells of this tree only and to leave an executed materialization with a payload; "
+               "Processor._process_recursive is proved (all arms) never to replace or clear a payload, to short-circuit on an existing payload, and to leave every processed materialization with a payload -- except through a plain marker (known finding F13).",
     level_note=_COMMON_NOTE + "Processor hooks and engine payload factories enter as assumed contracts. Known finding F13: a materialization behind a plain marker (every SQL materialization wraps a Select) never receives its payload, so its upstream is evaluated again by every process() call. "
                "One frame obligation of _process_recursive is covered by the bounded stand-in S-C07-frame-rebuilt-materialization (labelled bounded).",
 )
